@@ -2,7 +2,7 @@
 # usage: tools/eval_mutant.sh <PROP> <patch.diff> <demo.py> [extra props...]
 # Verifies an externally supplied change: tests pass with it; demo passes clean / fails patched; then runs our check(s) on it.
 prop=$1; patch=$2; demo=$3; shift 3
-name=$(basename $(dirname "$patch"))-$(basename "$patch" .diff)
+name=$(basename $(dirname $(dirname "$patch")))-$(basename $(dirname "$patch"))-$(basename "$patch" .diff)
 wt=/tmp/comasim-ev-$name
 cd "$(dirname "$0")/.." || exit 2
 git -C /repo worktree remove --force "$wt" >/dev/null 2>&1
